@@ -624,6 +624,13 @@ def names_book():
             book.add_probe(host, text,
                            'C03/names/host=%s/%s' % (host, text[1:]),
                            lib.norm(want), ['name:cell', 'name:ends-in-E'])
+        if host == s1:
+            # the rectangle of rng, written out (a model extracted around
+            # =SUM(rng) does not hold this formula)
+            book.add_probe(host, '=MAX(Sheet1!$A$1:$B$2)',
+                           'C03/names/host=%s/MAX(literal rng)' % host,
+                           lib.norm(max(v(s1, c, r) for r in (1, 2)
+                                        for c in 'AB')), ['range'])
         book.add_probe(host, '=SUM(drng)',
                        'C03/names/host=%s/SUM(drng)' % host,
                        lib.norm(v(s3, 'A', 1) + v(s3, 'B', 1)),
@@ -687,6 +694,24 @@ def run_names(ctx):
     ctx.check('C03/names/extracted/set(nm)/cell', got2, lib.norm(500),
               ['name:cell', 'model:extracted', 'history:set-through-name'],
               {'family': 'names'}, True)
+    # a named range means its cells in an extracted model as well - also
+    # when another formula of the workbook spells the same rectangle
+    for text, want in (('SUM(rng)', sum(v('Sheet1', c, r) for r in (1, 2)
+                                        for c in 'AB')),
+                       ('COUNTA(rng)', 4),
+                       ('SUM(qrng)', sum(v('My Sheet', 'A', r)
+                                         for r in (1, 2, 3)))):
+        probe = [p for p in book.probes
+                 if p[2] == 'C03/names/host=Sheet1/' + text]
+        addr = '%s!%s' % (probe[0][0], probe[0][1])
+        try:
+            ext = lib.ModelCompiler.extract(model, focus=[addr])
+            got = lib.eval_addr(ext, addr)
+        except Exception as exc:  # noqa: BLE001
+            got = lib.exc_obs(exc)
+        ctx.check('C03/names/extracted/' + text, got, lib.norm(want),
+                  ['name:range', 'model:extracted'], {'family': 'names'},
+                  True)
 
 
 # ---- (e1) sheets without any content ----------------------------------------------
